@@ -521,9 +521,7 @@ def make_variant(m, rng, cut, perm=None, kind='', check=True):
     rng.shuffle(defs)
     return {'s': base + '.{' + ','.join(defs) + '}', 'mol': m.dump(), 'kind': kind, 'nparts': len(parts),
             'texts': texts, 'perm': perm, 'ambiguous': amb,
-            'wb': sorted([[l, an, bool(v), (l, an) in cutoff] for (l, an), v in wb.items()]),
-            # one atom at read time: a bracket atom written without hydrogens that is a whole fragment
-            'lone': sorted(p[0] for p, t in zip(parts, texts) if len(p) == 1 and ('[%s;' % m.el[p[0]]) in t)}
+            'wb': sorted([[l, an, bool(v), (l, an) in cutoff] for (l, an), v in wb.items()])}
 
 
 def variants_of(m, rng, budget):
@@ -712,20 +710,6 @@ def conflict_class_py(before, wb=None, ident=None):
     return False
 
 
-def lone_class_py(case, impl):
-    """mirror of EzCheck.lone_class: a cut-off marked ligand that is a one-atom-at-read-time fragment arrived
-    at the annotation step without 'ez_isomer_class'"""
-    if 'before' not in impl:
-        return False
-    nodes = dict((n, d) for n, d in impl['before']['nodes'])
-    ident = impl.get('ident') or impl.get('ident_before') or []
-    for l, an, w, cut in case.get('wb', []):
-        if cut and l in case.get('lone', []):
-            if any(b == l and 'ez_isomer_class' not in nodes.get(a, {}) for a, b in ident):
-                return True
-    return False
-
-
 def damaged(v, rng):
     """one slash mark of a variant flipped or deleted: outside the domain, correspondence only"""
     base, frs = v['s'].split('.{', 1)
@@ -824,8 +808,6 @@ class C15(common.Prop):
                  15: 'the cis/trans class of a substituent pair differs from the other variants (inside the class '
                      'cut_off_ligand_key_order: a marked substituent cut off from its anchor got a key on the other '
                      'side of the anchor than where it was written)',
-                 17: 'a cis/trans relation is missing (inside the class lone_atom_fragment_drops_mark: a marked substituent '
-                     'that is a one-atom fragment written as a bracket atom without hydrogens lost its slash mark)',
                  16: 'the resolver raised "Conflicting cis/trans assignment" on consistently marked input (inside the '
                      'class cut_off_ligand_conflict_error: one of two marked ligands of an anchor is cut off and got a '
                      'key on the other side of the anchor than where it was written)',
@@ -873,7 +855,7 @@ class C15(common.Prop):
 
     def describe(self, case):
         d = {'s': case['s'], 'mol': case['mol'], 'kind': case.get('kind', '')}
-        for k in ('raw', 'judged', 'wb', 'lone'):
+        for k in ('raw', 'judged', 'wb'):
             if k in case:
                 d[k] = case[k]
         return d
@@ -948,8 +930,6 @@ class C15(common.Prop):
             return None
         if code in (14, 15) and in_class_py(impl['before'], case.get('wb'), impl.get('ident')) == code:
             return {14: 'second_anchor_ligand_lower', 15: 'cut_off_ligand_key_order'}[code]
-        if code == 17 and lone_class_py(case, impl):
-            return 'lone_atom_fragment_drops_mark'
         if code == 16 and str(impl.get('raised', '')).startswith('ValueError: Conflicting') \
                 and conflict_class_py(impl['before'], case.get('wb'), self._ident_before(case, impl)):
             return 'cut_off_ligand_conflict_error'
@@ -971,13 +951,13 @@ class C15(common.Prop):
         ident = impl.get('ident') or impl.get('ident_before')
         wbl = lit.lst(['(%s, %s, %s, %s)' % (lit.z(l), lit.z(an), lit.b(w), lit.b(c)) for l, an, w, c in case.get('wb', [])])
         return ('{| c_judged := %s; c_before := %s; c_after := %s; c_ret := %s; c_atoms := %s; c_bonds := %s; '
-                'c_ident := %s; c_chiral := %s; c_rel := %s; c_wb := %s; c_lone := %s |}'
+                'c_ident := %s; c_chiral := %s; c_rel := %s; c_wb := %s |}'
                 % (lit.b(case.get('judged', True)), '(Some %s)' % before if before else 'None',
                    '(Some %s)' % after if after else 'None',
                    '(Some %s)' % ret if ret else 'None',
                    atoms, bonds,
                    lit.lst([lit.pair(lit.z(a), lit.z(b)) for a, b in ident]) if ident is not None else '[]',
-                   chir, rel, wbl, lit.lst([lit.z(a) for a in case.get('lone', [])])))
+                   chir, rel, wbl))
 
     def python_oracle(self, case, impl):
         return py_oracle(case, impl)
@@ -1020,7 +1000,7 @@ def py_oracle(case, impl):
         if k in want and want[k] != c:
             return ('before' in impl and in_class_py(impl['before'], case.get('wb'), impl.get('ident'))) or 4
     if set(got) != set(want):
-        return 17 if lone_class_py(case, impl) else 5
+        return 5
     return 0
 
 
@@ -1068,12 +1048,13 @@ WITNESSES = [
     {'s': '{[#B][#A]}.{#A=F/[$],#B=[$]/C(/Cl)=C(/Br)I}', 'mol': _W2L,
      'kind': 'known-finding witness F cut off, two ligands, listed second', 'nparts': 2,
      'wb': [[0, 1, True, True], [2, 1, False, False], [4, 3, False, False]]},
-    # a marked substituent that is a one-atom fragment, written with / without hydrogens
+    # a marked substituent that is a one-atom fragment, written with / without hydrogens (the second lost its
+    # mark before fix commit d472632 of /repo: fixed finding lone_atom_fragment_drops_mark, kept in the corpus)
     {'s': '{[#A][#D][#B]}.{#A=Br[$h],#D=[CH2;x=S][$h]\\[$f],#B=[$f]\\C(Cl)=C(/F)I}', 'mol': _WL, 'kind': 'witness lone atom with H',
-     'nparts': 3, 'wb': [[1, 2, True, True], [5, 4, False, False]], 'lone': []},
+     'nparts': 3, 'wb': [[1, 2, True, True], [5, 4, False, False]]},
     {'s': '{[#A][#D][#B]}.{#A=Br[$h],#D=[C;x=S][$h]\\[$f],#B=[$f]\\C(Cl)=C(/F)I}', 'mol': _WL,
-     'kind': 'known-finding witness lone bracket atom without H', 'nparts': 3,
-     'wb': [[1, 2, True, True], [5, 4, False, False]], 'lone': [1]},
+     'kind': 'fixed-finding witness (d472632) lone bracket atom without H', 'nparts': 3,
+     'wb': [[1, 2, True, True], [5, 4, False, False]]},
     # two-digit ring labels before labelled stereocentres (seeded/C15-1)
     {'s': '{[#A][#B]}.{#A=OC%10CCCC%10[$],#B=[$][C;x=R](F)[C;x=S](Cl)Br}', 'mol': None, 'kind': 'witness ring label', 'nparts': 2},
 ]
